@@ -27,7 +27,7 @@ ROOT_NAMES = {
     "is_aggregate", "get_table_name", "_orderby_field", "_list_aliases", "get_parameters", "placeholder",
     "get_param_key", "needs_brackets", "left_needs_parens", "right_needs_parens", "get_formatted_value",
     "_set_kwargs_defaults", "_apply_pagination", "_column_clauses", "_period_for_clauses", "_unique_key_clauses",
-    "_primary_key_clause", "_foreign_key_clause", "__getattr__", "ignore_copy", "__and__", "__or__", "__xor__", "__invert__",
+    "_primary_key_clause", "_foreign_key_clause", "__getattr__", "ignore_copy", "__and__", "__or__", "__xor__", "__invert__", "__pos__", "__neg__",
 }
 # roots by pattern: every name ending in "_sql"
 NOT_ROOT = {"__init__", "__copy__", "__new__", "__call__"}
@@ -57,6 +57,10 @@ SET_METHODS_SET = {"union", "intersection", "difference", "symmetric_difference"
 SET_METHODS_SAFE = {"issubset", "issuperset", "isdisjoint", "__contains__", "add", "discard", "remove", "update",
                     "clear", "difference_update", "intersection_update"} | SET_METHODS_SET
 ALLOWED = {"F", "K"}
+BINOP_DUNDER = {"Add": "add", "Sub": "sub", "Mult": "mul", "Div": "truediv", "FloorDiv": "floordiv", "Mod": "mod",
+                "Pow": "pow", "LShift": "lshift", "RShift": "rshift", "BitAnd": "and", "BitOr": "or", "BitXor": "xor",
+                "MatMult": "matmul"}
+UNARY_DUNDER = {"Invert": "__invert__", "USub": "__neg__", "UAdd": "__pos__"}
 
 
 class ExtractionError(Exception):
@@ -196,6 +200,10 @@ class Sources:
         return out
 
 
+def re_inplace(name):
+    return name.startswith("__i") and name.endswith("__") and name[3:-2] in set(BINOP_DUNDER.values())
+
+
 def _origin_ok(o):
     return o <= ALLOWED
 
@@ -207,6 +215,19 @@ class Analysis:
         self.property_names = {f.name for f in self.src.fns.values() if f.is_property}
         self.pyp_names = set(self.src.by_name)
         self.set_attrs = set()
+        # operator methods that may hand back one of their operands (`EmptyCriterion() & c` is c, `+t` is t): the result
+        # of such an operator aliases its operands.  Syntactic and fail closed: some `return` whose value is not a call /
+        # constant / comparison / boolean / arithmetic expression.
+        self.aliasing_dunders = set()
+        for f in self.src.fns.values():
+            if f.cls and f.name.startswith("__") and f.name.endswith("__") and f.name not in ("__init__", "__new__", "__copy__"):
+                for n in ast.walk(f.node):
+                    if isinstance(n, ast.Return) and n.value is not None and not isinstance(
+                            n.value, (ast.Call, ast.Constant, ast.Compare, ast.BoolOp, ast.BinOp, ast.JoinedStr)) and not (
+                            isinstance(n.value, ast.UnaryOp) and isinstance(n.value.op, ast.Not)):
+                        self.aliasing_dunders.add(f.name)
+            if f.cls and re_inplace(f.name):
+                raise ExtractionError("in-place operator %s defined by %s: augmented assignment may mutate" % (f.name, f.qual))
         self._compute_set_summaries()
         self.roots = [f for f in self.src.fns.values() if self._is_root(f)]
         self.analysed = self._closure()
@@ -442,7 +463,8 @@ class FnWalk:
                 elif isinstance(n, ast.AnnAssign) and n.value is not None:
                     self._bind(n.target, self.ev(n.value))
                 elif isinstance(n, ast.AugAssign) and isinstance(n.target, ast.Name):
-                    self._bind(n.target, {"F"})   # x op= y rebinds x to the operator's result as well
+                    # x op= y rebinds x to the operator's result as well (which may be y itself: `crit &= term`)
+                    self._bind(n.target, self.ev(n.value) if self.op_aliases(n.op) else {"F"})
                 elif isinstance(n, ast.NamedExpr):
                     self._bind(n.target, self.ev(n.value))
                 elif isinstance(n, (ast.For, ast.AsyncFor)):
@@ -472,8 +494,16 @@ class FnWalk:
             if e.id in self.params:
                 o |= self.params[e.id]
             return o or {"G"}
-        if isinstance(e, (ast.Constant, ast.JoinedStr, ast.FormattedValue, ast.Compare, ast.Lambda, ast.UnaryOp,
-                          ast.BinOp, ast.List, ast.Tuple, ast.Set, ast.Dict, ast.ListComp, ast.SetComp, ast.DictComp,
+        if isinstance(e, ast.BinOp):
+            if self.op_aliases(e.op):
+                return self.ev(e.left) | self.ev(e.right)
+            return {"F"}
+        if isinstance(e, ast.UnaryOp):
+            if UNARY_DUNDER.get(type(e.op).__name__) in self.an.aliasing_dunders:
+                return self.ev(e.operand)
+            return {"F"}
+        if isinstance(e, (ast.Constant, ast.JoinedStr, ast.FormattedValue, ast.Compare, ast.Lambda,
+                          ast.List, ast.Tuple, ast.Set, ast.Dict, ast.ListComp, ast.SetComp, ast.DictComp,
                           ast.GeneratorExp, ast.Slice)):
             return {"F"}
         if isinstance(e, ast.BoolOp):
@@ -495,6 +525,10 @@ class FnWalk:
         if isinstance(e, (ast.Yield, ast.YieldFrom, ast.Await)):
             return {"H"}
         raise ExtractionError("unknown expression %s in %s" % (type(e).__name__, self.f.qual))
+
+    def op_aliases(self, op):
+        d = BINOP_DUNDER.get(type(op).__name__)
+        return d is not None and bool({"__%s__" % d, "__r%s__" % d} & self.an.aliasing_dunders)
 
     def _ret_origin(self, fns):
         return {"F"} if fns and all(g.ret_fresh for g in fns) else {"H"}
